@@ -34,6 +34,12 @@ var c11Files = map[string]string{
 	"tie.fa":   ">a\nACGT-N\n>b\nCAGT-N\n>c\nACTG-A\n>d\nCATGNA\n",
 	"odd.fa":   ">a\nAC?T*N\n>b\nA-?T*a\n>c\nacgt-?\n",
 	"aa.fa":    ">p1\nMAKWL-\n>p2\nMAKWLL\n>p3\nMGKWIL\n",
+	// gapped protein alignment long enough for bootstrap replicates to give defined distances
+	"aa2.fa": ">p1\nMAKWLLDE-RSTVIPG\n>p2\nMAKWL-DEQRSTVLPG\n>p3\nMGKWILNEQRATV-PG\n>p4\nMGRWILNDQKATVIPA\n",
+	// a saturated pair (s2,s3 differ at exactly 3 sites of 4: the jc distance is undefined) met after the
+	// pairs with defined distances, and the same rows in the other order
+	"sat.fa":  ">s1\nAACA\n>s2\nAAAA\n>s3\nCCCA\n",
+	"sat2.fa": ">s1\nAAAA\n>s2\nCCCA\n>s3\nAACA\n",
 	// the ORF ATGCTTTGGTAA translates to MLW*: L is a protein-only letter, so the pairwise aligner reads it as a protein
 	"unal.fa": ">u1\nCCATGCTTTGGTAAGG\n>u2\nATGCTTTGGTAA\n>u3\nGATGCTATGGTAAC\n>u4\nCCTTACCAAAGCATGG\n",
 	// here the ORF ATGGCTTGGTAA translates to MAW*, which goalign reads as nucleotides: every alignment fails on '*'
@@ -120,6 +126,8 @@ func c11Scenarios() []c11Scenario {
 		add("dist-"+m, false, true, "compute", "distance", "-m", m, "-i", "@nt.fa")
 	}
 	add("dist-k2p-gamma-rmgaps", false, true, "compute", "distance", "-m", "k2p", "--alpha", "0.5", "-r", "-i", "@nt.fa")
+	add("dist-jc-saturated", false, true, "compute", "distance", "-m", "jc", "-i", "@sat.fa")
+	add("dist-jc-saturated2", false, true, "compute", "distance", "-m", "jc", "-i", "@sat2.fa")
 	add("dist-avg", false, true, "compute", "distance", "-m", "pdist", "-a", "-i", "@nt.fa")
 	add("dist-range", false, true, "compute", "distance", "-m", "jc", "--range1", "0:1", "--range2", "1:3", "-i", "@nt.fa")
 	add("dist-prot-lg", false, true, "compute", "distance", "-m", "lg", "-i", "@aa.fa")
@@ -153,8 +161,8 @@ func c11Scenarios() []c11Scenario {
 	add("sample-rarefy", true, false, "sample", "rarefy", "-n", "4", "-c", "@counts.txt", "-i", "@nt.fa")
 	add("mutate-snvs", true, false, "mutate", "snvs", "-r", "0.3", "-i", "@nt.fa")
 	add("mutate-gaps", true, false, "mutate", "gaps", "-r", "0.3", "-n", "0.5", "-i", "@nt.fa")
-	add("random", true, false, "random", "-n", "3", "-l", "7")
-	add("random-aa", true, false, "random", "-n", "3", "-l", "7", "-a")
+	add("random", true, true, "random", "-n", "3", "-l", "7")
+	add("random-aa", true, true, "random", "-n", "3", "-l", "7", "-a")
 	add("seqboot", true, true, "build", "seqboot", "-n", "3", "-o", "boot", "-i", "@nt.fa")
 	add("seqboot-frac-shuf", true, true, "build", "seqboot", "-n", "2", "-f", "0.5", "-S", "-o", "boot", "-i", "@nt.fa")
 	add("seqboot-tar", true, true, "build", "seqboot", "-n", "2", "--tar", "-o", "boot", "-i", "@nt.fa")
@@ -683,6 +691,8 @@ type c11Boot struct {
 	Seed  int    `json:"seed"`
 	N     int    `json:"n"`
 	Input string `json:"input"`
+	// Flags given both to build distboot and to compute distance (-r, --alpha a)
+	Flags []string `json:"flags,omitempty"`
 }
 
 func c11CheckBoot(c *mc.Ctx, b c11Boot) {
@@ -705,7 +715,7 @@ func c11CheckBoot(c *mc.Ctx, b c11Boot) {
 		}
 		return so.String(), nil
 	}
-	direct, err := run("build", "distboot", "-i", in, "-n", fmt.Sprint(b.N), "--seed", fmt.Sprint(b.Seed), "-m", b.Model)
+	direct, err := run(append([]string{"build", "distboot", "-i", in, "-n", fmt.Sprint(b.N), "--seed", fmt.Sprint(b.Seed), "-m", b.Model}, b.Flags...)...)
 	if err != nil {
 		c.Violation("C11/bootstrap-equivalence/command-fails", err.Error(), b)
 		return
@@ -716,7 +726,7 @@ func c11CheckBoot(c *mc.Ctx, b c11Boot) {
 	}
 	var two strings.Builder
 	for i := 0; i < b.N; i++ {
-		o, err := run("compute", "distance", "-m", b.Model, "-i", fmt.Sprintf("rep%d.fa", i))
+		o, err := run(append([]string{"compute", "distance", "-m", b.Model, "-i", fmt.Sprintf("rep%d.fa", i)}, b.Flags...)...)
 		if err != nil {
 			c.Violation("C11/bootstrap-equivalence/command-fails", err.Error(), b)
 			return
@@ -726,7 +736,7 @@ func c11CheckBoot(c *mc.Ctx, b c11Boot) {
 	c.Nontrivial(fmt.Sprintf("%v", b))
 	c.Outcome("boot:" + b.Model)
 	if two.String() != direct {
-		c.Violation("C11/bootstrap-equivalence/matrices-differ", fmt.Sprintf("build distboot -n %d --seed %d -m %s gives %q; seqboot + compute distance gives %q", b.N, b.Seed, b.Model, c11Short(direct), c11Short(two.String())), b)
+		c.Violation("C11/bootstrap-equivalence/matrices-differ", fmt.Sprintf("build distboot -n %d --seed %d -m %s %s on %s gives %q; seqboot + compute distance gives %q", b.N, b.Seed, b.Model, strings.Join(b.Flags, " "), b.Input, c11Short(direct), c11Short(two.String())), b)
 	}
 }
 
@@ -743,7 +753,7 @@ func init() {
 		ID:    "C11",
 		Level: "model_checking",
 		Rule: "subprocess-mode exploration of the goalign binary instrumented from the current tree: for each of the listed command scenarios (every documented command family, 1-3 flag sets each, on small nucleotide / protein / multi-Phylip / malformed-second-alignment inputs) x seeds {1,7} (randomised commands) x --threads {1,2,3,16} (threaded commands): the default execution, then EVERY execution within 2 (quick) / 3 (thorough) deviations from it when run with one thread, 2 deviations with 2 threads and 1 deviation with 3 and 16 threads (both tiers) — a deviation is one scheduling decision other than the default (keep the running goroutine, else the lowest runnable id) at a channel/mutex/WaitGroup/spawn operation, one non-sorted iteration order at a ranged map, or one clock step at time.Now — must give exactly the bytes (stdout, exit status, every file written) of the default one-thread execution, end normally, and show no data race (vector clocks). " +
-			"Reformat chains: ALL format sequences of <=3 conversions among fasta/phylip/nexus/clustal that return to the starting format, on 5 inputs (one with '?', '*' and lower case), must return the starting bytes; build distboot == build seqboot + compute distance for 4 models x 2 seeds. Each scenario also runs on the uninstrumented binary and on the instrumented binary in pass-through mode (must agree). states/transitions = nodes/edges of the choice trees; distinct_nontrivial = distinct (scenario, seed, threads, choice list) executions compared.",
+			"Reformat chains: ALL format sequences of <=3 conversions among fasta/phylip/nexus/clustal that return to the starting format, on 5 inputs (one with '?', '*' and lower case), must return the starting bytes; build distboot == build seqboot + compute distance for 9 models (6 nucleotide, 3 protein on a gapped protein alignment) x {no flag, -r, --alpha 0.7, both} x 2 seeds. Each scenario also runs on the uninstrumented binary and on the instrumented binary in pass-through mode (must agree). states/transitions = nodes/edges of the choice trees; distinct_nontrivial = distinct (scenario, seed, threads, choice list) executions compared.",
 		Assumptions: []string{
 			"scheduling points only at synchronisation operations (channel, mutex, WaitGroup, go); data races are reported separately by vector clocks",
 			"stderr is not compared (log lines); dependencies (cobra, gzip, xz, tar) are not instrumented: they spawn no goroutines and range over no maps on these paths",
@@ -805,10 +815,16 @@ func init() {
 					}})
 				}
 			}
-			for _, m := range []string{"pdist", "jc", "k2p", "f81"} {
-				for _, sd := range []int{1, 7} {
-					b := c11Boot{Model: m, Seed: sd, N: 3, Input: "nt.fa"}
-					ts = append(ts, mc.Task{Name: fmt.Sprintf("boot#%s/seed%d", m, sd), Run: func(c *mc.Ctx) { c11CheckBoot(c, b) }})
+			for _, m := range []string{"pdist", "jc", "k2p", "f81", "f84", "tn93", "lg", "jtt", "wag"} {
+				in := "nt.fa"
+				if m == "lg" || m == "jtt" || m == "wag" {
+					in = "aa2.fa"
+				}
+				for fi, fl := range [][]string{nil, {"-r"}, {"--alpha", "0.7"}, {"-r", "--alpha", "0.7"}} {
+					for _, sd := range []int{1, 7} {
+						b := c11Boot{Model: m, Seed: sd, N: 3, Input: in, Flags: fl}
+						ts = append(ts, mc.Task{Name: fmt.Sprintf("boot#%s/flags%d/seed%d", m, fi, sd), Run: func(c *mc.Ctx) { c11CheckBoot(c, b) }})
+					}
 				}
 			}
 			return ts
